@@ -438,6 +438,58 @@ class Item:
         for h in hits:
             self.rewrite(h.start(), h.end(), "", "R1")
 
+    def d_dropattrs(self):
+        """R1: every attribute `#[...]` inside the item is dropped (serde / schemars / derive metadata)"""
+        for mo in re.finditer(r"#\s*\[", self.m):
+            close = match_brace(self.m, mo.end() - 1, "[", "]")
+            if any(e[0] <= mo.start() and close + 1 <= e[1] and e[0] < e[1] for e in self.edits):
+                continue
+            self.rewrite(mo.start(), close + 1, "", "R1")
+
+    def d_pubfields(self):
+        """R1: a struct and its fields are made `pub` (visibility only; Verus specs may then mention them)"""
+        mo = re.match(r"\s*(pub(\s*\([^)]*\))?\s+)?struct\b", self.m)
+        if mo and not mo.group(1):
+            k = self.m.index("struct")
+            self.rewrite(k, k, "pub ", "R1")
+        bo = self.m.find("{")
+        if bo < 0:
+            return
+        close = match_brace(self.m, bo)
+        depth, j, start = 0, bo + 1, bo + 1
+        while j < close:
+            ch = self.m[j]
+            if ch in "([{<":
+                depth += 1
+            elif ch in ")]}>" and self.m[j - 1] != "-":
+                depth -= 1
+            elif ch == "," and depth == 0:
+                start = j + 1
+            elif depth == 0 and ch == ":" and self.m[j + 1] != ":" and self.m[j - 1] != ":":
+                fld = re.search(r"([A-Za-z_][A-Za-z0-9_]*)\s*$", self.m[start:j])
+                if fld:
+                    fs = start + fld.start()
+                    pre = self.m[start:fs]
+                    if "pub" not in pre:
+                        self.rewrite(fs, fs, "pub ", "R1")
+                    elif re.search(r"pub\s*\(", pre):
+                        pm = re.search(r"pub\s*\([^)]*\)", self.m[start:fs])
+                        self.rewrite(start + pm.start(), start + pm.end(), "pub", "R1")
+                # skip to the end of this field
+                d2, j2 = 0, j + 1
+                while j2 < close:
+                    c2 = self.m[j2]
+                    if c2 in "([{<":
+                        d2 += 1
+                    elif c2 in ")]}>" and self.m[j2 - 1] != "-":
+                        d2 -= 1
+                    elif c2 == "," and d2 == 0:
+                        break
+                    j2 += 1
+                j = j2
+                start = j2 + 1
+            j += 1
+
     def d_nodefault(self, fn):
         """R7a: the default body of trait method fn is replaced by `;` (the body is materialised into
         every impl of the unit that inherits it, see d_inherit)"""
@@ -592,12 +644,17 @@ class Item:
                 # `for k in &SET` over a bit_set::BitSet: iterate the member list (trusted shim vx_bitset_members)
                 r = "vx_bitset_members(&%s)" % r
                 mode = "val"
+            if mode == "mut":
+                me = re.match(r"(.+?)\s*\.\s*iter_mut\s*\(\s*\)$", r, re.S)
+                if not me:
+                    raise Undecided("R3 for-index-mut: receiver is not X.iter_mut()")
+                r = me.group(1).strip()
             if not re.match(r"[A-Za-z_][A-Za-z0-9_.]*$", r):
                 # not a place expression: evaluate it once
                 rv = "vx_recv" if k == 1 else "vx_recv%d" % k
                 pre = "let %s = %s;\n    " % (rv, r)
                 r = rv
-            bind = "let %s = %s%s[%s];" % (pat, "&" if mode == "ref" else "", r, iv)
+            bind = "let %s = %s%s[%s];" % (pat, {"ref": "&", "mut": "&mut ", "val": ""}[mode], r, iv)
         self.rewrite(s, bopen + 1, "%slet mut %s: usize = 0;\n    while %s < %s.len()\n    /*@loop*/\n    {\n      %s/*@body*/" % (pre, iv, iv, r, bind), "R3-for-index")
         for c in re.finditer(r"\bcontinue\b", self.m[bopen + 1:bclose]):
             cpos = bopen + 1 + c.start()
@@ -605,6 +662,24 @@ class Item:
                 continue  # belongs to a nested loop
             self.rewrite(cpos, cpos + len("continue"), "{ %s = %s + 1; continue }" % (iv, iv), "R3-for-index")
         self.rewrite(bclose, bclose, "  %s = %s + 1;\n    " % (iv, iv), "R3-for-index")
+
+    def r3_for_owned(self, fn, k):
+        """for X in RECV { BODY } over an owned Vec (BODY consumes X): ==> explicit IntoIter loop
+        let mut vx_it = vx_into_iter(RECV); loop { let Some(X) = vx_it.next() else { break; }; BODY }
+        (vx_into_iter / VxIntoIter::next: trusted shim of std vec::IntoIter in prelude/into_iter.rs)"""
+        ls = self.loops(fn)
+        if k > len(ls) or ls[k - 1][0] != "for":
+            raise Undecided("LOST-ANCHOR: R3 for-owned loop %d of fn %s in %s" % (k, fn, self.where()))
+        _, s, bopen, bclose = ls[k - 1]
+        mo = re.match(r"for\s+(.+?)\s+in\s+(.+?)\s*$", self.text[s:bopen], re.S)
+        if not mo:
+            raise Undecided("R3 for-owned: header not recognised")
+        pat, recv = mo.group(1).strip(), mo.group(2).strip()
+        iv = "vx_it" if k == 1 else "vx_it%d" % k
+        self.rewrite(s, bopen + 1, "let mut %s = vx_into_iter(%s);\n    loop\n    /*@loop*/\n    {\n      let Some(%s) = %s.next() else { break; };/*@body*/" % (iv, recv, pat, iv), "R3-for-owned")
+
+    def r3_for_index_mut(self, fn, k):
+        self.r3_for_index(fn, k, "mut")
 
     def r3_for_index_val(self, fn, k):
         self.r3_for_index(fn, k, "val")
@@ -829,6 +904,17 @@ def build_unit(unit_path, repo=REPO):
                 it.d_R4(args[0], args[1], "R6")
             elif name == "R1":
                 it.d_R4(args[0], args[1], "R1")
+            elif name == "closure":
+                # closure <fn> "<anchor: the closure text `|..| EXPR`>" <<< ensures ... >>> : names the closure's
+                # result vx_c and states its postcondition (ghost); the body EXPR stays in place, braces are added
+                a, b = it.find_in_fn(args[0], args[1])
+                bar2 = it.text.index("|", it.text.index("|", a) + 1)
+                it.ghost(bar2 + 1, " -> (vx_c: %s)\n" % (args[2] if len(args) > 2 else "_") + payload + "\n{")
+                it.ghost(b, "}")
+            elif name == "dropattrs":
+                it.d_dropattrs()
+            elif name == "pubfields":
+                it.d_pubfields()
             elif name == "nodefault":
                 it.d_nodefault(args[0])
             elif name == "implfix":
@@ -927,7 +1013,7 @@ def fn_table(generated):
                 close = match_brace(m, j)
                 nxt = re.match(r"\s*(\S{0,3})", m[close + 1:close + 40])
                 tok = nxt.group(1) if nxt else ""
-                cont = tok[:1] in list(",=&|).?+-*/<>:") or re.match(r"(els|dec|ens|req|rec|by\b|via|ope|inv|no_)", tok) is not None
+                cont = tok[:1] in list(",=&|).?+-*/<>:{") or re.match(r"(els|dec|ens|req|rec|by\b|via|ope|inv|no_)", tok) is not None
                 if cont:
                     j = close + 1
                     continue
